@@ -448,11 +448,12 @@ void EGLPNUM_TYPENAME_ILLprice_init_mpartial_price (
 	p = (pricetype == COL_PRICING) ? &(pinf->pmpinfo) : &(pinf->dmpinfo);
 	p->bsize = 0;
 	i = p->cgroup;
-	do
-	{
-		EGLPNUM_TYPENAME_ILLprice_mpartial_group (lp, p, phase, i, pricetype);
-		i = (i + 1) % p->ngroups;
-	} while (i != p->cgroup && p->bsize <= p->k);
+	if (p->ngroups > 0)					/* nothing to price: no rows (dual) or no non-basic columns (primal) */
+		do
+		{
+			EGLPNUM_TYPENAME_ILLprice_mpartial_group (lp, p, phase, i, pricetype);
+			i = (i + 1) % p->ngroups;
+		} while (i != p->cgroup && p->bsize <= p->k);
 	p->cgroup = i;
 }
 
@@ -523,11 +524,12 @@ void EGLPNUM_TYPENAME_ILLprice_update_mpartial_price (
 #endif
 
 	i = p->cgroup;
-	do
-	{
-		EGLPNUM_TYPENAME_ILLprice_mpartial_group (lp, p, phase, i, pricetype);
-		i = (i + 1) % p->ngroups;
-	} while (i != p->cgroup && p->bsize <= p->k);
+	if (p->ngroups > 0)					/* nothing to price: no rows (dual) or no non-basic columns (primal) */
+		do
+		{
+			EGLPNUM_TYPENAME_ILLprice_mpartial_group (lp, p, phase, i, pricetype);
+			i = (i + 1) % p->ngroups;
+		} while (i != p->cgroup && p->bsize <= p->k);
 	p->cgroup = i;
 
 #ifdef MULTIP
